@@ -23,6 +23,10 @@ def vf_jobs(tier):
     J.append(Job('pcm-exact','vf/pcm_seek.c',defs=['-DNPK=%d'%(3 if q else 5),'-DENV_BUDGET=3'],cuts={'vorbisfile.c':['ov_pcm_seek_page','_get_next_page','_fetch_and_process_packet']},unwind=(3 if q else 5)+4,object_bits=12,
         witnesses=['packets discarded in the second link','samples discarded up to the target','seek failed'],models=ENV+['contract of ov_pcm_seek_page (page-bisect)'],tags=['C08','C07','C03','C20'],
         functions=['ov_pcm_seek','_make_decode_ready'],bounds='2 links, <=%d queued packets without granule positions, <=3 further packets fetched, block sizes 64..8192 per link'%(3 if q else 5),weight=3))
+    for kl in ([2] if q else [2,3]):
+        J.append(Job('chain-table-%d'%kl,'vf/chain_table.c',defs=['-DKL=%d'%kl,'-DFETCHES=%d'%(10 if kl==2 else 16)],cuts={'vorbisfile.c':['_seek_helper','_get_next_page','_get_prev_page_serial','_fetch_headers','_initial_pcmoffset','ov_raw_seek']},
+            unwind=(12 if kl==2 else 18),object_bits=12,witnesses=['chain opened','serial number with the top bit set'],models=ENV+['abstract chained file (M-frame(c))'],tags=['C09','C03','C13'],checks=[],
+            functions=['_open_seekable2','_bisect_forward_serialno','ov_pcm_total'],bounds='%d links of 200..40000 bytes, <=%d page fetches, non-multiplexed chain'%(kl,10 if kl==2 else 16),weight=4,flags=['--depth','100000'] if False else []))
     for nm,d in (('F-prevserial',[]),('F-prevpage',['-DPLAIN'])):
         J.append(Job(nm,'vf/f_prevpage.c',defs=d,cuts={'vorbisfile.c':['_seek_helper','_get_next_page']},unwind=10,unwindset=[('env_fill_page',None,28)],object_bits=12,
             witnesses=['page found','error under persisting end of data'],models=ENV+['recurrence (lasso) check in the _seek_helper contract'],tags=['C03','C12'],
